@@ -7,6 +7,9 @@ import SluProofs.Props.C14
 import Slu.Model.IluDrop
 import SluProofs.Lemmas.IluDrop
 import SluProofs.Lemmas.QSelect
+import Mathlib.Tactic.Ring
+import Mathlib.Tactic.Linarith
+import Mathlib.Algebra.Order.Field.Basic
 /-
 C15 — Incomplete LU never breaks down and is exact when dropping is off.
 
@@ -798,6 +801,102 @@ theorem dropRow_milu_sum (hn : 1 ≤ n) (hnm : n < m) (hr : rows.size = m) (hs :
 
 end block
 
+/-- the compensation of one column from the entries of the dropped rows in that column: the signed sum under SMILU_1
+and SMILU_2, the sum of the moduli under SMILU_3 (`other` under SILU, where the row is not used) -/
+def colComp (milu : Milu) (vals : List Rat) (other : Rat) : Rat :=
+  match milu with
+  | .smilu1 | .smilu2 => vals.sum
+  | .smilu3 => (vals.map rabs).sum
+  | .silu => other
+
+/-- **C15 (drop_row: the MILU compensation in exact arithmetic).** Over `Rat`, with every row of the block of length
+`n`: once a row has been dropped, entry `j` of the accumulator row `m-1` is the SIGNED sum of the entries `j` of the
+dropped rows under SMILU_1 and SMILU_2, and the sum of their MODULI under SMILU_3 (dropped rows listed by the ghost
+trace: original positions, all `< m`, none in the diagonal block, none kept). -/
+theorem dropRow_milu_sum_rat (nrm2 : Array Rat → Rat) (rule : Rule) (milu : Milu) (nrm : Nrm) (dropTol : Rat) (quota : Int)
+    (alpha fillTol : Rat) (m n : Nat) (rows : Array (Array Rat)) (subs : Array Int)
+    (hn : 1 ≤ n) (hnm : n < m) (hr : rows.size = m) (hs : subs.size = m) (hrows : ∀ i, i < m → (rows[i]!).size = n)
+    (hpos : 0 < (dropBlock (opsRat nrm2) rule milu nrm dropTol quota alpha fillTol m n rows subs).1.r) (j : Nat) (hj : j < n) :
+    ((dropBlock (opsRat nrm2) rule milu nrm dropTol quota alpha fillTol m n rows subs).1.rows[m - 1]!)[j]! =
+      colComp milu
+        ((dropBlock (opsRat nrm2) rule milu nrm dropTol quota alpha fillTol m n rows subs).1.trace.reverse.map fun e => (rows[e.1]!)[j]!)
+        (((dropBlock (opsRat nrm2) rule milu nrm dropTol quota alpha fillTol m n rows subs).1.rows[m - 1]!)[j]!) := by
+  have h := (dropBlock_inv (opsRat nrm2) rule milu nrm dropTol quota alpha fillTol m n rows subs hn hnm hr hs).1
+  have hpos' : 0 < (dropBlock (opsRat nrm2) rule milu nrm dropTol quota alpha fillTol m n rows subs).1.trace.length := by
+    rw [h.tlen]; exact hpos
+  have hacc := h.acc hpos
+  clear hpos
+  generalize (dropBlock (opsRat nrm2) rule milu nrm dropTol quota alpha fillTol m n rows subs).1 = s at h hpos' hacc ⊢
+  have hsz : ∀ y ∈ (s.trace.reverse.map fun e => rows[e.1]!), y.size = n := by
+    intro y hy
+    obtain ⟨e, he, rfl⟩ := List.mem_map.mp hy
+    exact hrows e.1 (trace_lt h e (List.mem_reverse.mp he))
+  cases hl : (s.trace.reverse.map fun e => rows[e.1]!) with
+  | nil =>
+    have : (s.trace.reverse.map fun e => rows[e.1]!).length = s.trace.length := by simp
+    rw [hl] at this; simp at this; omega
+  | cons x xs =>
+    rw [hl] at hsz
+    have key := accOf_rat nrm2 milu n j hj x xs hsz
+    have hmap1 : (s.trace.reverse.map fun e => (rows[e.1]!)[j]!) = (x :: xs).map fun y => y[j]! := by
+      rw [← hl, List.map_map]; rfl
+    unfold colComp
+    cases milu
+    · rfl
+    · rw [hacc, hl, key, hmap1]
+    · rw [hacc, hl, key, hmap1]
+    · rw [hacc, hl, key, hmap1, List.map_map]; rfl
+
+/-- **C15 (drop_row: what the compensation does to the diagonal, real files).** Over `Rat`, for `alpha ≤ 1` (every
+`ILU_MILU_Dim > 0`) and a nonzero accumulated value `t`: in all three MILU modes the diagonal entry is multiplied by
+`1 + min(|t|, 2(1 - alpha))` — the SIGN of the dropped sum is lost (`t * omega ≥ 0` for either sign of `t`) — and the
+replacement branch `t == -1` of SMILU_1 (`nzp`, hook H2 phase 2) is never taken. -/
+theorem diagComp_rat (nrm2 : Array Rat → Rat) (milu : Milu) (hm : milu ≠ .silu) (alpha fillTol d t : Rat) (ha : alpha ≤ 1) (ht : t ≠ 0) :
+    (opsRat nrm2).diagComp milu alpha fillTol d t = (d * (1 + min |t| (2 * (1 - alpha))), false) := by
+  have hc : 0 ≤ 2 * (1 - alpha) := by linarith
+  have key : t * (if t > 0 then (if 2 * (1 - alpha) / t < 1 then 2 * (1 - alpha) / t else 1)
+      else (if 2 * (1 - alpha) / t > -1 then 2 * (1 - alpha) / t else -1)) = min |t| (2 * (1 - alpha)) := by
+    rcases lt_or_gt_of_ne ht with hneg | hpos
+    · have h1 : ¬ t > 0 := by linarith
+      rw [if_neg h1, abs_of_neg hneg]
+      by_cases h2 : 2 * (1 - alpha) / t > -1
+      · rw [if_pos h2, mul_div_cancel₀ _ ht]
+        have : 2 * (1 - alpha) < -t := by
+          have := (lt_div_iff_of_neg hneg).mp (show -1 < 2 * (1 - alpha) / t from h2)
+          linarith
+        rw [min_eq_right (le_of_lt this)]
+      · rw [if_neg h2]
+        have : -t ≤ 2 * (1 - alpha) := by
+          by_contra hcon
+          have hcon : 2 * (1 - alpha) < -t := not_le.mp hcon
+          exact h2 ((lt_div_iff_of_neg hneg).mpr (by linarith))
+        rw [min_eq_left this]; ring
+    · rw [if_pos hpos, abs_of_pos hpos]
+      by_cases h2 : 2 * (1 - alpha) / t < 1
+      · rw [if_pos h2, mul_div_cancel₀ _ ht]
+        have : 2 * (1 - alpha) < t := by rwa [div_lt_one hpos] at h2
+        rw [min_eq_right (le_of_lt this)]
+      · rw [if_neg h2]
+        have : t ≤ 2 * (1 - alpha) := by
+          by_contra hcon
+          exact h2 ((div_lt_one hpos).mpr (not_le.mp hcon))
+        rw [min_eq_left this]; ring
+  have hnn : 0 ≤ min |t| (2 * (1 - alpha)) := le_min (abs_nonneg t) hc
+  cases milu
+  · exact absurd rfl hm
+  · simp only [opsRat]
+    rw [key]
+    have : (min |t| (2 * (1 - alpha)) != -1) = true := by
+      simp only [bne_iff_ne, ne_eq]; intro h; linarith
+    simp [this]
+  · simp only [opsRat]
+    rw [key]
+    have : rabs (min |t| (2 * (1 - alpha))) = min |t| (2 * (1 - alpha)) := by
+      unfold rabs; rw [if_neg (by linarith)]
+    rw [this]
+  · simp only [opsRat]
+    rw [key]
+
 /-! ### a concrete supernode: rows dropped in both loops, and the defect of the second loop -/
 
 /-- one column, six rows: the diagonal 4, then 1/4, 3, 1, 5, 2; subscripts 10..15 -/
@@ -822,6 +921,10 @@ example := dropRow_count (opsRat fun _ => 0) exRule .smilu1 .inf (1/2 : Rat) 3 (
   (by decide) (by decide) rfl rfl
 example := dropRow_milu_sum (opsRat fun _ => 0) exRule .smilu1 .inf (1/2 : Rat) 3 (1/2 : Rat) (1/100 : Rat) 6 1 exRows exSubs
   (by decide) (by decide) rfl rfl (by decide +kernel)
+
+example := dropRow_milu_sum_rat (fun _ => 0) exRule .smilu1 .inf (1/2 : Rat) 3 (1/2 : Rat) (1/100 : Rat) 6 1 exRows exSubs
+  (by decide) (by decide) rfl rfl (by decide) (by decide +kernel) 0 (by decide)
+example := diagComp_rat (fun _ => 0) .smilu1 (by decide) (1/2) (1/100) 4 (29/4) (by decide +kernel) (by decide +kernel)
 
 /-- **C15 (a defect of `ilu_?drop_row`, reproduced on the C code by findings/D15_drop_row_neighbour_norm.c).**
 The second loop stores, for the row it moves from position `m1` to position `i`, the norm `temp[m1-1]` (the index is
